@@ -18,10 +18,10 @@ package chk
 
 import (
 	"fmt"
-	"os"
 	"go/ast"
 	"go/token"
 	"go/types"
+	"os"
 	"strings"
 
 	"golang.org/x/tools/go/types/typeutil"
@@ -702,4 +702,3 @@ func (in *inliner) fuseLoop(info *types.Info, fd *ast.FuncDecl, rs *ast.RangeStm
 	eds = append(eds, textEdit{start: in.off(rs.Pos()), end: in.off(rs.End()), text: tail})
 	return eds, regionFrom, true
 }
-
